@@ -6,10 +6,10 @@ func nullRejectingObs() []Ob {
 	return []Ob{
 		{ID: "E3.null-rejecting", Fn: "oidc.ParseToken", P: []string{"tokenString", "claims"}, Kind: "call", Pat: "json.Unmarshal($payload, $claims)", Max: 1,
 			Why: "a JWT payload that is the JSON literal null leaves pointer claims nil without an error",
-			Req: []string{`false(bytes.Equal(bytes.TrimSpace($payload), conv(_, "null")))`}},
+			Req: []string{`false(bytes.Equal(bytes.TrimSpace($payload), conv(_, "null"))) || neq(conv(string, bytes.TrimSpace($payload)), "null") || neq(strings.TrimSpace(conv(string, $payload)), "null")`}},
 		{ID: "E3.null-rejecting", Fn: "http.HttpRequest", P: []string{"client", "req", "response"}, Kind: "call", Pat: "json.Unmarshal($body, $response)", Max: 1,
 			Why: "a response body that is the JSON literal null leaves pointer response values nil without an error",
-			Req: []string{`false(bytes.Equal(bytes.TrimSpace($body), conv(_, "null")))`}},
+			Req: []string{`false(bytes.Equal(bytes.TrimSpace($body), conv(_, "null"))) || neq(conv(string, bytes.TrimSpace($body)), "null") || neq(strings.TrimSpace(conv(string, $body)), "null")`}},
 	}
 }
 
